@@ -150,6 +150,26 @@ pub fn each(tier: Tier, f: &mut dyn FnMut(Case) -> bool) -> bool {
         ("deep-value-dropped", Box::new(|n| (format!("stel a = [7]; stel i = 0; zolang i < {n} {{ a = [a, 1.5]; i += 1 }} a = 0; stel j = 0; zolang j < 20000 {{ stel t = [j]; j += 1 }} a"), Some("0".to_string())))),
         ("long-value-shown", Box::new(|n| (format!("stel a = \"x\"; stel i = 0; stel l = [a, a, a, a]; zolang i < {n} {{ l = [l[1], l[2], l[3], i]; i += 1 }} print(l); l"), None))),
     ];
+    // recursion without an end: whatever the shape of the function, the machine's own limit stops it with an
+    // error (nothing is printed), it does not eat the memory until the process is killed
+    for (i, text) in [
+        "functie f() { f() } f()",
+        "functie f(n) { f(n) } f(1)",
+        "functie f() { stel a = 1; f() } f()",
+        "functie f() { 1 + f() } f()",
+        "functie a() { b() } functie b() { a() } a()",
+        "functie f() { [f()] } f()",
+        "functie f() { als ja { f() } } f()",
+        "stel g = functie() { 0 }; g = functie() { g() }; g()",
+        "functie f() { f(); f() } f()",
+    ]
+    .iter()
+    .enumerate()
+    {
+        if !f(Case { family: "endless-recursion", n: i, text: text.to_string(), expect: Some(String::new()) }) {
+            return false;
+        }
+    }
     for (name, gen) in runtime {
         for n in sizes(tier, 8, 16, 17) {
             let (text, expect) = gen(n);
